@@ -68,8 +68,10 @@ def sequence_failures(spec, steps):
         if c["pos"].shape == ref.shape and np.array_equal(c["pos"], ref):
             b = law_failures(spec, E.end_view(res, i))      # the held result, read at the END of the sequence
             bad += ["call %d of the sequence (%s, reference configuration): %s" % (i, c["how"], x) for x in b]
-    if not np.array_equal(res["tgt_after"], np.array(spec["tgt"], dtype=float)):
+    if not res["tgt_unchanged"]:
         bad.append("the target molecule passed to the constructor was modified by the calls")
+    if not res["eq_stable"]:
+        bad.append("the public equivalences changed between construction and the end of the sequence")
     bad = res["held_problems"][:3] + bad
     return bad[:6]
 
@@ -80,7 +82,11 @@ def default_steps(spec):
 
 C01_PATTERNS = [["object"], ["copy0"], ["object", "copy", "object"], ["copy", "object", "copy0"],
                 ["object", "inplace", "restore"], ["copy", "copy0", "inplace", "restore", "object"],
-                ["deep0"], ["object", "deep0", "sep0"], ["deepcopy", "sep0", "deep0"]]
+                ["deep0"], ["object", "deep0", "sep0"], ["deepcopy", "sep0", "deep0"],
+                # the construction molecules modified in place BEFORE the first call (M reference, T target, E: the
+                # equivalences read in between); the law refers to the geometry at construction
+                ["M:copy0"], ["EM:copy0", "restore"], ["T:object", "copy0"], ["ETM:deep0", "restore", "copy"],
+                ["inplace", "copy0", "restore"]]
 
 
 def gen_steps(rs, spec, pattern=None):
@@ -88,13 +94,17 @@ def gen_steps(rs, spec, pattern=None):
     if pattern is None:
         pattern = C01_PATTERNS[rs.randint(len(C01_PATTERNS))]
     steps = []
-    for how in pattern:
+    for tok in pattern:
+        flags, how = E.split_token(tok)
         if how in ("copy0", "deep0", "sep0"):
             # a fresh copy / a deep copy (own topology) / a separately loaded equal molecule, in the construction-time
             # configuration
-            steps.append({"how": {"copy0": "copy", "deep0": "deepcopy", "sep0": "separate"}[how], "pos": spec["ref"]})
+            st = {"how": {"copy0": "copy", "deep0": "deepcopy", "sep0": "separate"}[how], "pos": spec["ref"]}
+            if flags:
+                st["pre"] = E.make_pre(rs, spec, moved_conf, flags)
+            steps.append(st)
         else:
-            steps += E.make_steps(rs, spec, moved_conf, [how])
+            steps += E.make_steps(rs, spec, moved_conf, [tok])
     return steps
 
 
